@@ -10,6 +10,8 @@ Driver handlers for C14.
 * `SAMPLEPIPE <gvec|gflat|kvec|kflat> <k> <seed> <parts> <rows>` — the four entry points; `parts` =
   comma-separated partition counts; `rows` = ints, or `key:value` pairs for the keyed entry points.
   Answer `seq=<out> p<n>=<out> …` (keyed outputs after a stable sort by key).
+* `SAMPLEFILT <gvec|gflat|kvec|kflat> <k> <seed> <parts> <pred> <rows>` — the same with `filter(pred)` between
+  the source and the sample (`pred` on the element / on the value of a keyed row); same answer format.
 -/
 namespace IB.D14
 open IB.Wire IB.Sampling
@@ -104,41 +106,82 @@ def encGroups (rows : List (Int × List Int)) : String :=
 def encPairs (rows : List (Int × Int)) : String :=
   if rows.isEmpty then "-" else ",".intercalate (rows.map (fun r => toString r.1 ++ ":" ++ toString r.2))
 
-/-- canonical output of one run of one entry point; `n = none` is sequential mode -/
-def runEntry (entry : String) (k : Nat) (seed : UInt64) (n : Option Nat) (xs : List Int)
-    (rows : List (Int × Int)) : Option String :=
+/-- the predicates the harness can put in front of the sample (`from_vec(..).filter(pred)`), on the element
+    (global entry points) or on the value of a `(key, value)` row (keyed entry points):
+    `all`, `none`, `lt:<c>` (`x < c`), `ge:<c>` (`x ≥ c`), `mod:<m>:<r>` (`x.rem_euclid(m) == r`, `m ≥ 1`) -/
+def pred? (s : String) : Option (Int → Bool) :=
+  match s.splitOn ":" with
+  | ["all"] => some (fun _ => true)
+  | ["none"] => some (fun _ => false)
+  | ["lt", c] => (parseInt? c).map (fun c => fun x => decide (x < c))
+  | ["ge", c] => (parseInt? c).map (fun c => fun x => decide (x ≥ c))
+  | ["mod", m, r] =>
+    match parseNat? m, parseNat? r with
+    | some m, some r => if m == 0 then none else some (fun x => x.emod (Int.ofNat m) == Int.ofNat r)
+    | _, _ => none
+  | _ => none
+
+/-- canonical output of one run of one entry point; `n = none` is sequential mode; `filt = none` is the plain
+    pipeline (`SAMPLEPIPE`), `some p` the pipeline with `filter(p)` before the sample (`SAMPLEFILT`).
+    Each of the four entry points has its own model definition. -/
+def runEntry (entry : String) (k : Nat) (seed : UInt64) (n : Option Nat) (filt : Option (Int → Bool))
+    (xs : List Int) (rows : List (Int × Int)) : Option String :=
   let c : Combiner Int (PRAcc UInt64 Int) (List Int) := reservoirSM k seed
-  let g : List Int := match n with | none => sampleSeq c xs | some n => samplePar c n xs
-  let kd : List (Int × List Int) :=
-    match n with | none => sampleKeyedSeq c rows | some n => sampleKeyedPar c n rows
-  if entry == "gvec" then some (encInts "," g)          -- exactly one output row
-  else if entry == "gflat" then some (encInts "," g)     -- the row flattened
-  else if entry == "kvec" then some (encGroups (sortByKey kd))
-  else if entry == "kflat" then some (encPairs (sortByKey (flattenKeyed kd)))
+  if entry == "gvec" then        -- exactly one output row
+    some (encInts "," (match filt, n with
+      | none, none => sampleSeq c xs
+      | none, some n => samplePar c n xs
+      | some p, none => sampleFilterSeq c p xs
+      | some p, some n => sampleFilterPar c n p xs))
+  else if entry == "gflat" then  -- the row flattened by the trailing `flat_map`
+    some (encInts "," (match filt, n with
+      | none, none => sampleFlatSeq c xs
+      | none, some n => sampleFlatPar c n xs
+      | some p, none => flattenGlobal [sampleFilterSeq c p xs]
+      | some p, some n => flattenGlobal [sampleFilterPar c n p xs]))
+  else if entry == "kvec" || entry == "kflat" then
+    let kd : List (Int × List Int) :=
+      match filt, n with
+      | none, none => sampleKeyedSeq c rows
+      | none, some n => sampleKeyedPar c n rows
+      | some p, none => sampleKeyedFilterSeq c (fun r => p r.2) rows
+      | some p, some n => sampleKeyedFilterPar c n (fun r => p r.2) rows
+    if entry == "kvec" then some (encGroups (sortByKey kd))
+    else some (encPairs (sortByKey (flattenKeyed kd)))
   else none
+
+def runAll (entry : String) (k seed : Nat) (ps : List Nat) (filt : Option (Int → Bool)) (rows : String) : String :=
+  if seed ≥ 2 ^ 64 then "BAD-OP" else
+  let keyed := entry == "kvec" || entry == "kflat"
+  let parsed : Option (List Int × List (Int × Int)) :=
+    if keyed then (kvs? rows).map (fun r => ([], r)) else (ints? rows).map (fun x => (x, []))
+  match parsed with
+  | some (xs, kv) =>
+    let s := UInt64.ofNat seed
+    let outs : List (Option String) :=
+      (runEntry entry k s none filt xs kv).map ("seq=" ++ ·) ::
+        ps.map (fun n => (runEntry entry k s (some n) filt xs kv).map (fun o => "p" ++ toString n ++ "=" ++ o))
+    match outs.mapM id with
+    | some l => " ".intercalate l
+    | none => "BAD-OP"
+  | none => "BAD-OP"
 
 def handlePipe : List String → String
   | [entry, k, seed, parts, rows] =>
     match parseNat? k, parseNat? seed, nats? parts with
-    | some k, some seed, some ps =>
-      if seed ≥ 2 ^ 64 then "BAD-OP" else
-      let keyed := entry == "kvec" || entry == "kflat"
-      let parsed : Option (List Int × List (Int × Int)) :=
-        if keyed then (kvs? rows).map (fun r => ([], r)) else (ints? rows).map (fun x => (x, []))
-      match parsed with
-      | some (xs, kv) =>
-        let s := UInt64.ofNat seed
-        let outs : List (Option String) :=
-          (runEntry entry k s none xs kv).map ("seq=" ++ ·) ::
-            ps.map (fun n => (runEntry entry k s (some n) xs kv).map (fun o => "p" ++ toString n ++ "=" ++ o))
-        match outs.mapM id with
-        | some l => " ".intercalate l
-        | none => "BAD-OP"
-      | none => "BAD-OP"
+    | some k, some seed, some ps => runAll entry k seed ps none rows
     | _, _, _ => "BAD-OP"
   | _ => "BAD-OP"
 
+/-- `SAMPLEFILT <entry> <k> <seed> <parts> <pred> <rows>` -/
+def handleFilt : List String → String
+  | [entry, k, seed, parts, pred, rows] =>
+    match parseNat? k, parseNat? seed, nats? parts, pred? pred with
+    | some k, some seed, some ps, some p => runAll entry k seed ps (some p) rows
+    | _, _, _, _ => "BAD-OP"
+  | _ => "BAD-OP"
+
 def handlers : List (String × (List String → String)) :=
-  [("RESERVOIR", handleReservoir), ("SAMPLEPIPE", handlePipe)]
+  [("RESERVOIR", handleReservoir), ("SAMPLEPIPE", handlePipe), ("SAMPLEFILT", handleFilt)]
 
 end IB.D14
